@@ -6,6 +6,7 @@ equivalent entry points. Expected program = witness template rendered from the m
 from __future__ import annotations
 
 import ast
+import re
 
 from .. import oracle as O
 from ..core import CaseTimeout, deadline
@@ -119,6 +120,26 @@ KINDS += [
     Kind('ClassDef._bases(mixed,kw)', lambda e: f'class C({_csv(e)}): pass' if e else 'class C: pass', P, '_bases', MIXA, ['b0=x0', 'b1=x1'], _csv),
     Kind('ClassDef._bases(mixed,pos)', lambda e: f'class C({_csv(e)}): pass' if e else 'class C: pass', P, '_bases', MIXA, ['x0', '*x1'], _csv),
 ]
+def _args_around_kw(e):
+    """positional / starred arguments around a fixed keyword: the keyword sits in front of the first starred argument whenever
+    that is valid (all plain arguments first), else at the end. The two fields are separate lists in the AST, so where the
+    keyword stands does not matter to the structural comparison."""
+    if all(not x.startswith('*') for x in e[:next((i for i, x in enumerate(e) if x.startswith('*')), len(e))]) and \
+            all(x.startswith('*') for x in e[next((i for i, x in enumerate(e) if x.startswith('*')), len(e)):]):
+        k = next((i for i, x in enumerate(e) if x.startswith('*')), len(e))
+        return _csv(e[:k] + ['k=v'] + e[k:])
+    return _csv(e + ['k=v'])
+
+
+KINDS += [  # one of the two real fields of a call / class header whose elements are interleaved with the other field's in the source
+    Kind('Call.keywords(interleaved)', lambda e: f'f({_csv(e[:1] + ["*s"] + e[1:])})', PV, 'keywords',
+         ['a0=e0', 'a1=e1', 'a2=e2', 'a3=e3'], ['b0=x0', 'b1=x1'], _csv),
+    Kind('ClassDef.keywords(interleaved)', lambda e: f'class C({_csv(e[:1] + ["*s"] + e[1:])}): pass', P, 'keywords',
+         ['a0=e0', 'a1=e1', 'a2=e2', 'a3=e3'], ['b0=x0', 'b1=x1'], _csv),
+    Kind('Call.args(interleaved)', lambda e: f'f({_args_around_kw(e)})', PV, 'args', ['e0', '*e1', '*e2', '*e3'], ['*x0', '*x1'], _csv),
+    Kind('ClassDef.bases(interleaved)', lambda e: f'class C({_args_around_kw(e)}): pass', P, 'bases', ['e0', '*e1', '*e2', '*e3'],
+         ['*x0', '*x1'], _csv),
+]
 KINDS += [  # option-dependent container behaviour
     Kind('BoolOp.values(op_side=right)', lambda e: 'v = ' + ' and '.join(e), PV, 'values', E3, X2, lambda e: ' and '.join(e), 2,
          opts={'op_side': 'right'}),
@@ -224,8 +245,10 @@ def judge(fst, kind, cid, src, root, exp_els, exc, res, params, rep, changed):
         if exc.__class__.__name__ in ('AttributeError', 'TypeError', 'KeyError', 'AssertionError', 'UnboundLocalError'):
             res.fail(cid, 'internal-error:' + exc.__class__.__name__, f'src={src!r}\n{exc!r}', params, rep)
             return
+        other = bool(re.match(r"cannot put to (Call|ClassDef)\.(args|bases|keywords) slice because it (precedes|follows) (args|bases|keywords), try the '_(args|bases)' field$", str(exc)))
         res.fail(cid, 'valid-request-refused:' + exc.__class__.__name__,
-                 f'src={src!r}\nmodel result={want_src!r}\n{exc!r}', dict(params, exc=exc.__class__.__name__, msg=str(exc)[:60]), rep)
+                 f'src={src!r}\nmodel result={want_src!r}\n{exc!r}',
+                 dict(params, exc=exc.__class__.__name__, msg=str(exc)[:60], other_field_refusal=other), rep)
         return
     bad = live_vs_parse(root, 'Module')
     if bad:
